@@ -110,6 +110,8 @@ def default_container_case(rng, counters, violations):
         r = m.refattr(label="r")
     else:
         r = m.refattr({}, "r")
+    # a second default container that is still EMPTY when the manager is pickled (e.g. a results container)
+    out = m.refattr(label="out") if how_root.startswith("refattr") else m.ref(label="out")
     names = ["a", "b", "c", "d", "e"]
     log = [["root", how_root]]
 
@@ -152,13 +154,33 @@ def default_container_case(rng, counters, violations):
     if state(r) != state(r2):
         violations.append({"what": "C12 default container: contents differ right after restore", "ops": log})
         return
+    # definitions made in the container that was empty at pickle time, attribute-style and item-style
+    out2 = m2.containers["out"]
+    for j, (kind, nm) in enumerate([(rng.choice(["attr", "item"]), "y"), (rng.choice(["attr", "item"]), "z")]):
+        for root, o in ((r, out), (r2, out2)):
+            src = getattr(root, names[j]) if rng.random() < 2 else None
+            if kind == "attr":
+                setattr(o, nm, src * 2 + 1)
+            else:
+                o[nm] = src * 2 + 1
+        log.append(["out", kind, nm])
+        sa, sb = state(out), state(out2)
+        counters["mirrored_followups"] = counters.get("mirrored_followups", 0) + 1
+        if sa != sb or sb[0] != sb[1]:
+            violations.append({"what": "C12 default container that was EMPTY when pickled: after %s-assignment of %s the copy holds items %s / attributes %s, "
+                                       "the original %s" % (kind, nm, sb[0], sb[1], sa[0]), "ops": log})
+            return
     for j in range(rng.randrange(3, 7)):
         kind, nm, v = rng.choice(["attr", "item"]), rng.choice(names[:2]), rng.choice([0.5, 4.0, -1.5, 7.0])
         for root in (r, r2):
             step(root, kind, nm, lambda root, v=v: v)
         log.append([kind, nm, v])
-        sa, sb = state(r), state(r2)
+        sa, sb = (state(r), state(out)), (state(r2), state(out2))
         counters["mirrored_followups"] = counters.get("mirrored_followups", 0) + 1
+        if sa != sb:
+            violations.append({"what": "C12 default containers after restore and %s-assignment of %s: original %s, copy %s" % (kind, nm, sa, sb), "ops": log})
+            return
+        sa, sb = state(r), state(r2)
         if sa != sb or sb[0] != sb[1]:
             violations.append({"what": "C12 default container (xdeps.utils.AttrDict): after restore and %s-assignment of %s the copy holds "
                                        "items %s / attributes %s, the original %s" % (kind, nm, sb[0], sb[1], sa[0]), "ops": log})
